@@ -25,7 +25,7 @@ m = {
         "guard": "--cfg hbs_lms_verif",
         "enable": "the harness crate /verif/harness sets build.rustflags = [\"--cfg\", \"hbs_lms_verif\"] in its .cargo/config.toml and depends on /repo by path; cargo build --release --offline [--features fast_verify] with HBS_LMS_* build variables for constrained configurations",
         "baseline_off_cmd": "cd /repo && cargo test --workspace --no-fail-fast --offline",
-        "source_commits": ["d4483ab", "bf14f2d", "54aa6be", "bd96398"],
+        "source_commits": ["d4483ab", "bf14f2d", "54aa6be", "bd96398", "b3ddfa5"],
         "add_only": True,
     },
     "engines": [
